@@ -302,6 +302,22 @@ pub struct Fail {
     pub what: String,
 }
 
+/// An exposure failure (C05).  In the plain debug flavour the execution goes
+/// on, so that the end-to-end oracles show the consequence too (a released
+/// chunk reads back as the 0xFC poison there); under ASan / Miri / release
+/// the case stops instead of deliberately touching released memory.
+fn expose_failed(soft: &mut Soft, sig: &str, e: String) -> Result<(), Fail> {
+    let f = fail(&["C05"], sig, e);
+    if crate::ctx::flavour() == "dbg" {
+        if soft.iter().all(|x| x.sig != f.sig) {
+            soft.push(f);
+        }
+        Ok(())
+    } else {
+        Err(f)
+    }
+}
+
 fn fail(props: &[&'static str], sig: &str, what: String) -> Fail {
     Fail { props: props.to_vec(), sig: sig.to_string(), what }
 }
@@ -327,7 +343,7 @@ fn observe_and_drain(
     {
         let prefix = cons.stable_prefix();
         if let Err(e) = expose::check_view(prefix, owned, &mut obs.expose) {
-            return Err(fail(&["C05"], "expose", e));
+            expose_failed(soft, "expose", e)?;
         }
         stable_len = prefix.iter().map(|s| s.len()).sum();
         if full_peek {
@@ -339,9 +355,9 @@ fn observe_and_drain(
         }
     }
     if stable_len > total {
-        return Err(fail(&["C03", "C09"], "stable>total", format!("stable bytes {} > total_size {}", stable_len, total)));
+        soft.push(fail(&["C03", "C09"], "stable>total", format!("stable bytes {} > total_size {}", stable_len, total)));
     }
-    let lag = total - stable_len;
+    let lag = total.saturating_sub(stable_len);
     obs.max_lag = obs.max_lag.max(lag);
     let live = ByteArena::num_live_bytes();
     obs.max_live_bytes = obs.max_live_bytes.max(live);
@@ -472,7 +488,7 @@ pub fn run_encode(params: Params, input: &[u8], plan: &[PieceStep], owned: &Owne
     {
         let prefix = iov.stable_prefix();
         if let Err(e) = expose::check_view(prefix, owned, &mut obs.expose) {
-            return Err(fail(&["C05"], "expose", e));
+            expose_failed(soft, "expose", e)?;
         }
     }
     let tail = match iov.flatten() {
@@ -482,7 +498,7 @@ pub fn run_encode(params: Params, input: &[u8], plan: &[PieceStep], owned: &Owne
         }
     };
     if iov.total_size() != tail.len() {
-        return Err(fail(&["C03"], "total-size", format!("finished encoder total_size {} != flatten len {}", iov.total_size(), tail.len())));
+        soft.push(fail(&["C03"], "total-size", format!("finished encoder total_size {} != flatten len {}", iov.total_size(), tail.len())));
     }
     let mut total = std::mem::take(&mut obs.drained);
     total.extend_from_slice(&tail);
@@ -680,7 +696,7 @@ pub fn run_decode(params: Params, enc: &[u8], plan: &[PieceStep], owned: &Owned,
             {
                 let prefix = iov.stable_prefix();
                 if let Err(e) = expose::check_view(prefix, owned, &mut obs.expose) {
-                    return Err(fail(&["C05"], "expose", e));
+                    expose_failed(soft, "expose", e)?;
                 }
             }
             let tail = iov
@@ -1472,6 +1488,9 @@ enum PieceDist {
     Medium,
     Large,
     Mixed,
+    /// single calls of 1..8 MiB (borrow / copy only: a read of that size
+    /// legitimately asks the arena for one chunk of that size)
+    Huge,
 }
 
 fn next_piece(rng: &mut Rng, dist: PieceDist) -> usize {
@@ -1480,6 +1499,7 @@ fn next_piece(rng: &mut Rng, dist: PieceDist) -> usize {
         PieceDist::Small => rng.range(1, 300),
         PieceDist::Medium => rng.range(1, 70_000),
         PieceDist::Large => rng.range(1, 262_144),
+        PieceDist::Huge => rng.range(1 << 20, 8 << 20),
         PieceDist::Mixed => match rng.below(4) {
             0 => rng.range(1, 4),
             1 => rng.range(1, 300),
@@ -1696,7 +1716,7 @@ pub fn run_stream(ctx: &mut Ctx) {
             continue;
         }
         let mut rng = Rng::for_case(ctx.args.seed, "codec-stream", r);
-        let dist = *rng.pick(&[PieceDist::Bytes, PieceDist::Small, PieceDist::Medium, PieceDist::Large, PieceDist::Mixed, PieceDist::Medium, PieceDist::Large]);
+        let dist = *rng.pick(&[PieceDist::Bytes, PieceDist::Small, PieceDist::Medium, PieceDist::Large, PieceDist::Mixed, PieceDist::Medium, PieceDist::Large, PieceDist::Huge]);
         let style = match r % 4 {
             0 => gen::Style::NoFe,
             1 => gen::Style::AllStuff,
@@ -1724,7 +1744,7 @@ pub fn run_stream(ctx: &mut Ctx) {
             dist,
             policy,
             pipeline: rng.chance(1, 2),
-            method_mix: rng.below(4) as u8,
+            method_mix: if dist == PieceDist::Huge { rng.below(2) as u8 } else { rng.below(4) as u8 },
         };
         ctx.begin_case(idx, || stream_json(idx, &spec));
         let res = catch(|| run_one_stream(ctx, idx, &spec, &mut rng));
